@@ -202,6 +202,7 @@ func (sc *SlotChain) Entry(ctx *EntryContext) *TokenResult {
 	}
 
 	// execute statistic slot
+	util.VerifYield("chain.checked")
 	ss := sc.stats
 	ruleCheckRet = ctx.RuleCheckResult
 	ctx.outcomeRecorded = true
